@@ -196,7 +196,7 @@ void run_target(int tgt, const std::string &text, unsigned cfg, Src &s, Ctx &c) 
 }
 }  // namespace
 
-bool vf_configure(Ctx &c) {
+bool vf_configure(Ctx &c) { g_errno_repoison = 1;
     if (c.mode != "C17") return false;
     c.deciding = MEM | HANG | CRASH | FUNC; c.noteonly = LEAK;
     if (const char *t = getenv("VF_TARGET")) g_fixed_target = atoi(t);
